@@ -107,12 +107,17 @@ func genC14(seed uint64, tier string, idx int) *Plan {
 			}
 		}
 		sleep(d)
-		hb()
-		if g.r.chance(30) {
+		// usually a heartbeat is the first thing the server reads after the silence; sometimes it is a missing
+		// packet of an open transfer itself (sent unasked)
+		unasked := len(opens) > 0 && g.r.chance(25)
+		if !unasked {
 			hb()
+			if g.r.chance(30) {
+				hb()
+			}
 		}
 		// partial or full resupply of one open transfer
-		if len(opens) > 0 && g.r.chance(60) {
+		if len(opens) > 0 && (unasked || g.r.chance(60)) {
 			o := opens[g.r.intn(len(opens))]
 			if len(o.missing) > 0 {
 				n := 1 + g.r.intn(len(o.missing))
